@@ -1,5 +1,5 @@
 """What is claimed per property (text of the MANIFEST level claim)."""
-HOOK_COMMITS = []
+HOOK_COMMITS = ["57f3656"]
 NOT_APPLICABLE = {}
 CLAIMS = {
     "C16": {
@@ -21,5 +21,13 @@ CLAIMS = {
     "C12": {
         "text": "Proved: merge keeps the receiver's apex, takes the merged-in zone's SOA when it has one else keeps its own (last SOA wins), refuses different apexes, and drops the receiver's SOA record set before uniting when a new SOA arrives (exactly one SOA). Union of ordinary and wildcard records: Impl-vs-Model exact and Impl-vs-Spec oracle (lookup on the concatenated entries of the files of that apex, SOA of the last file having one) over 1-5 merged zones x questions; the set-union theorem is being proved.",
         "note": "Partial: directory enumeration/sorting by the OS is observed, not modelled. Found and fixed F3 (wildcards dropped) and F4 (two SOA records).",
+    },
+    "C05": {
+        "text": "Proved for every cache state, name, type and clock reading: every record a lookup returns has TTL >= 1 and its TTL (in ns) is at most the stored expiry minus now (floor of the remaining seconds), so a record at or past its expiry is never returned; TTL-0 records are not stored. Histories (insert, re-insert, lookup by type/ANY, unchecked lookup, prune, dump, second and sub-second clock steps) run Impl-vs-Model with exact state dumps after the virtual-clock hook, and Impl-vs-Spec against the abstract map (name,type,data) -> expiry of the LAST insertion: never stale, no duplicates, live records returned (D3), stored expiry = last insert + TTL. The whole-history refinement theorem is being proved.",
+        "note": "Partial: the real monotonic clock is replaced by the virtual-clock hook; priority-queue crate contract assumed.",
+    },
+    "C15": {
+        "text": "Proved: whenever prune returns, the record counter is <= the desired size and is the number it reports; the overflow flag is exactly 'was over size before'. Every prune in every generated history is judged by the specification oracle on dumps taken right before and after: no expired record left, counts (expired, evicted, remaining, overflow) true, survivors unchanged, evicted names whole, least-recently-used, and minimal; every dump satisfies the structural invariant (counter = number of distinct (name,type,data); queues in sync; next_expiry = minimum). 2-8 real threads on one SharedCache followed by the invariant. Invariant-preservation and termination-given-invariant theorems are being proved.",
+        "note": "Partial: std::sync::Mutex and the priority-queue crate are trusted; concurrency is observed, not proved. Found and fixed F14 (next_expiry recomputed over one record type).",
     },
 }
